@@ -253,6 +253,8 @@ func TestC12TickEdges(t *testing.T) {
 				s.Fail(f, c, "tick-twice-per-instant:"+comp, "tick #%d at %d ps follows tick #%d at %d ps (not strictly later)", i, tk.time, i-1, ticks[i-1].time)
 				return
 			}
+		}
+		for i, tk := range ticks {
 			if tk.progress {
 				if i+1 >= len(ticks) {
 					s.Fail(f, c, "progress-not-reticked:"+comp, "tick #%d at %d ps made progress but the component was never ticked again (period %d)", i, tk.time, per)
